@@ -36,7 +36,7 @@ type c02Case struct {
 }
 
 // Eval!ExtText: the external properties every Eval case runs with
-var evalExt = map[string]string{"p1": "x", "p2": " y "}
+var evalExt = map[string]string{"p1": "x", "p2": " y ", "p4": ""}
 
 var xpTable = []string{"", "a", "b", "*", "a/b", "..", "../a", "../b"} // Eval!XP
 
